@@ -5,9 +5,12 @@ table, both sensor types) -> Gen/C15Gen.v; theorems in Props/C15.v against the h
 Peano-Baker series of Spec/PeanoBaker.v.  The list model of the table assembly
 (Spec.PeanoBaker.rows) is tied to the implementation by exact comparison of labels, dt and
 provenance (which samples each row depends on) for random n and irregular dyadic stamps.
-Every table is also run in permuted column layouts with extra unrelated columns (LAYOUTS): the channels
-are read by LABEL, so the results must be bit-identical to the canonical layout's; the accuracy statements
-are evaluated on tables in those layouts (cycling).  Line coverage of compute_increments_from_imu during
+Every table is also run in other valid forms: permuted column layouts with extra unrelated columns
+(complete, partially NaN, object dtype; LAYOUTS / EXTRA_KIND): the channels are read by LABEL, so the results
+must be bit-identical to the canonical layout's; readings stored as float32 independently of the float64 time
+axis, at time offsets 0, 1e5, 1.2e6, 1.7e9 s: row count, labels and dt are compared EXACTLY with the float64
+index / np.diff of it, theta / dv within float32 rounding of the readings; dyadic time axes shifted by the
+offset give bit-identical columns.  The accuracy statements are evaluated on tables in those layouts (cycling).  Line coverage of compute_increments_from_imu during
 the statement runs is measured (tools/linecov.py) and an unreached line breaks the correspondence.
 
 Numerical support / falsifier on the implementation (independent oracle: the exact attitude
@@ -31,8 +34,9 @@ import random
 import numpy as np
 
 RULE = ("translator: both traced functions validated on 60 random inputs per run; rows: random tables with "
-        "n = 0..60 samples, irregular dyadic stamps (steps 1..10 /64 s), random data, both sensor types - a case "
-        "is distinct by (type, stamps); slopes: random linear / sinusoidal 3-axis signals (|w| <= 3 rad/s, "
+        "n = 0..60 samples, irregular dyadic stamps (steps 1..10 /64 s) starting at 0 / 1e5 / 1.2e6 / 1.7e9 s + 0..100 s, "
+        "random data, both sensor types, each in 6 column layouts with extra complete / partially-NaN / object "
+        "columns, float64 and float32 readings x 4 time offsets - a case is distinct by (type, stamps); slopes: random linear / sinusoidal 3-axis signals (|w| <= 3 rad/s, "
         "|f| <= 30 m/s^2, 0.2..2 Hz), uniform stamps T = 160..1 ms (long tables over a 0.64 s window) and irregular "
         "stamps (3-sample tables with unequal adjacent intervals q T != c T <= 160 ms at fixed start times, T = 160..5 ms) "
         "- a case is distinct by (signal kind, type, stamps kind, trial)")
@@ -189,36 +193,115 @@ LAYOUTS = [
 ]
 
 
-def apply_layout(df, layout):
-    """the same labelled data with the columns in the order `layout`; names that are not IMU channels
-    become unrelated float columns (deterministic values of IMU-like magnitude)."""
-    if layout is None or list(layout) == CANON:
+# kinds of the extra (non-inertial) columns: complete float data, a multi-rate channel that is filled on every
+# 4th record only (NaN elsewhere), an object-dtype status column
+EXTRA_KIND = {'odometer': 'complete', 'temperature': 'partial', 'aux': 'partial', 'flag': 'object'}
+# time offsets of the float64 time axis (0, uptime seconds, GPS seconds of week, UNIX seconds)
+OFFSETS = [0.0, 1e5, 1.2e6, 1.7e9]
+TOL32 = 4e-6        # float32 readings: 64 x float32 epsilon, relative to the largest entry of theta / dv of the row
+
+
+def apply_layout(df, layout, dtype=None):
+    """the same labelled data (and the same float64 index) with the columns in the order `layout`; names that are
+    not IMU channels become unrelated columns of the kind EXTRA_KIND (default: complete float data); with
+    `dtype` the six inertial channels are stored in that dtype (the time axis stays float64)."""
+    if (layout is None or list(layout) == CANON) and dtype is None:
         return df
     import pandas as pd
+    layout = CANON if layout is None else list(layout)
+    n = len(df)
     cols = {}
     for k, name in enumerate(layout):
-        cols[name] = df[name].values if name in CANON else 20.0 + 0.25 * k + 0.125 * np.arange(len(df))
-    return pd.DataFrame(cols, index=df.index, columns=list(layout))
+        if name in CANON:
+            cols[name] = df[name].values if dtype is None else df[name].values.astype(dtype)
+            continue
+        kind = EXTRA_KIND.get(name, 'complete')
+        v = 20.0 + 0.25 * k + 0.125 * np.arange(n)
+        if kind == 'partial':
+            v = np.where(np.arange(n) % 4 == 0, v, np.nan)
+        elif kind == 'object':
+            v = np.array([('ok' if i % 3 else None) for i in range(n)], dtype=object)
+        cols[name] = v
+    return pd.DataFrame(cols, index=df.index, columns=layout)
+
+
+def _same_table(out, ref):
+    return list(out.columns) == list(ref.columns) and out.shape == ref.shape and \
+        np.array_equal(np.asarray(out.index, float), np.asarray(ref.index, float)) and \
+        np.array_equal(out.values, ref.values)
 
 
 def layout_identity(imu, typ):
-    """results for every layout of LAYOUTS must be bit-identical to the canonical layout's.
-    Returns a failure string or None."""
+    """results for every layout of LAYOUTS (column order, extra complete / partially NaN / object columns)
+    must be bit-identical to the canonical layout's.  Returns a failure string or None."""
     from pyins.strapdown import compute_increments_from_imu
     ref = compute_increments_from_imu(imu, typ)
     for li, layout in enumerate(LAYOUTS[1:], 1):
         out = compute_increments_from_imu(apply_layout(imu, layout), typ)
-        if list(out.columns) != list(ref.columns) or out.shape != ref.shape or \
-                not np.array_equal(np.asarray(out.index, float), np.asarray(ref.index, float)) or \
-                not np.array_equal(out.values, ref.values):
+        if not _same_table(out, ref):
             dif = float(np.abs(out.values - ref.values).max()) if out.shape == ref.shape and out.size else None
-            return (f"result for column layout {layout} differs from the result for the canonical layout "
-                    f"(max abs difference {dif})")
+            return (f"result for column layout {layout} (extra columns: {EXTRA_KIND}) differs from the result for "
+                    f"the canonical layout: shape {out.shape} vs {ref.shape}, max abs difference {dif}")
+    return None
+
+
+def stamp_clause(out, index, what):
+    """one row per sample after the first, labelled with that sample's float64 time, dt = np.diff of the
+    float64 index, exactly.  Returns a failure string or None."""
+    idx = np.asarray(index, dtype=np.float64)
+    n = len(idx)
+    if len(out) != max(n - 1, 0):
+        return f"{what}: {len(out)} rows for {n} samples"
+    if n >= 2:
+        if not np.array_equal(np.asarray(out.index, dtype=np.float64), idx[1:]):
+            return f"{what}: row labels are not the time stamps of the samples after the first"
+        dt = np.asarray(out['dt'].values, dtype=np.float64)
+        if not np.array_equal(dt, np.diff(idx)):
+            return (f"{what}: 'dt' is not np.diff of the float64 time stamps: max |dt - diff| = "
+                    f"{float(np.abs(dt - np.diff(idx)).max()):.3e} s, dt[:4] = {dt[:4].tolist()}")
+    return None
+
+
+def dtype_offset_check(imu, typ, k=0):
+    """readings stored as float32 independently of the float64 time axis, for every time offset of OFFSETS:
+    the stamp clause holds exactly, and theta / dv agree with the result for the same (float32-representable)
+    readings stored as float64 within float32 rounding of the arithmetic on the readings (TOL32).  Also float64
+    readings at every offset: stamp clause.  `k` selects the column layout of the float32 table.
+    Returns a failure string or None."""
+    from pyins.strapdown import compute_increments_from_imu
+    import pandas as pd
+    for off in OFFSETS:
+        idx = np.asarray(imu.index, dtype=np.float64) + off
+        t64 = pd.DataFrame(imu.values.astype(np.float32).astype(np.float64), index=idx, columns=list(imu.columns))
+        ref = compute_increments_from_imu(t64, typ)
+        bad = stamp_clause(ref, idx, f"float64 readings, time offset {off:g} s")
+        if bad:
+            return bad
+        layout = LAYOUTS[k % len(LAYOUTS)]
+        out = compute_increments_from_imu(apply_layout(t64, layout, dtype=np.float32), typ)
+        what = f"float32 readings, float64 time stamps offset by {off:g} s, columns {layout}"
+        bad = stamp_clause(out, idx, what)
+        if bad:
+            return bad
+        if list(out.columns) != list(ref.columns):
+            return f"{what}: columns {list(out.columns)}"
+        for cols in (COLS_TH, COLS_DV):
+            o, w = out[cols].values.astype(np.float64), ref[cols].values
+            if len(w):
+                scale = np.abs(w).max(axis=1, keepdims=True)
+                if not (np.abs(o - w) <= TOL32 * scale).all():
+                    return (f"{what}: {cols[0][:-2]} differs from the float64 computation on the same readings by "
+                            f"{float((np.abs(o - w) / np.maximum(scale, 1e-300)).max()):.3e} (relative; float32 "
+                            f"rounding allows {TOL32:g})")
     return None
 
 
 # ---------------------------------------------------------------------------
 # running the implementation
+
+class StatementFailure(Exception):
+    """the table returned by the implementation does not have the row/stamp structure the property states"""
+
 
 def make_table(om, f, stamps, typ, layout=None):
     import pandas as pd
@@ -238,6 +321,9 @@ def row_errors(om, f, stamps, typ, layout=None):
     """per result row: |theta - rotvec(C)|, |dv - u|, |dv - u + a x (a x d) T^3/6|, theta_code - theta_exact"""
     from pyins.strapdown import compute_increments_from_imu
     inc = compute_increments_from_imu(make_table(om, f, stamps, typ, layout), typ)
+    bad = stamp_clause(inc, stamps, f"columns {layout or CANON}")
+    if bad:
+        raise StatementFailure(bad)
     th = inc[COLS_TH].values
     dv = inc[COLS_DV].values
     out = []
@@ -413,13 +499,20 @@ def numeric_statements(r, trials, seed_shift=0, small_T=True):
                     layout = LAYOUTS[lc % len(LAYOUTS)]
                     stats['layouts']['slope_cases_per_layout'][lc % len(LAYOUTS)] += 1
                     lc += 1
-                    lbad = layout_identity(make_table(om, f, uniform_stamps(t_start, 0.04), typ), typ)
+                    tbl = make_table(om, f, uniform_stamps(t_start, 0.04), typ)
+                    lbad = layout_identity(tbl, typ) or dtype_offset_check(tbl, typ, k=lc)
                     stats['layouts']['identity_tables'] += 1
                     if lbad:
                         fails.append((f"{kind} signals, {typ} type: {lbad}",
                                       dict(kind='layout', sig=kind, typ=typ, om=om.to_json(), f=f.to_json(),
-                                           t_start=t_start)))
-                    E, sl = slope_case(om, f, typ, pattern, t_start, layout)
+                                           t_start=t_start, k=lc)))
+                    try:
+                        E, sl = slope_case(om, f, typ, pattern, t_start, layout)
+                    except StatementFailure as ex:
+                        fails.append((f"{kind} signals, {typ} type, {stamps_kind} stamps: {ex}",
+                                      dict(kind='slope', sig=kind, typ=typ, om=om.to_json(), f=f.to_json(),
+                                           pattern=pattern, t_start=t_start, layout=layout)))
+                        continue
                     # increment type x unequal adjacent intervals: theta carries the cubic term of
                     # theorem C15_incr_unequal_discrepancy (candidate finding F2) - measured below,
                     # not judged against the "exact through the cubic term" threshold here
@@ -441,7 +534,7 @@ def numeric_statements(r, trials, seed_shift=0, small_T=True):
                                       dict(kind='slope', sig=kind, typ=typ, om=om.to_json(), f=f.to_json(),
                                            pattern=pattern, t_start=t_start, layout=layout)))
                 stats['slopes'][f"{kind}/{typ}/{stamps_kind}"] = dict(
-                    min=[min(s[k] for s in sls) for k in range(3)], cases=len(sls),
+                    min=[min(s[k] for s in sls) if sls else None for k in range(3)], cases=len(sls),
                     columns=['theta', 'dv', 'dv+gap'])
     stats['f2'] = dict(worst_predicted_discrepancy=f2_worst[0], witness=f2_worst[1],
                        max_relative_residual_vs_theorem=f2_resid)
@@ -452,7 +545,8 @@ def numeric_statements(r, trials, seed_shift=0, small_T=True):
 # rows and stamps
 
 def random_table(rng, n):
-    k = rng.randint(0, 6400)
+    # first stamp: one of the time offsets plus up to 100 s, in units of 1/64 s (exact in binary64 up to 1.7e9 s)
+    k = int(rng.choice(OFFSETS)) * 64 + rng.randint(0, 6400)
     stamps64 = []
     for _ in range(n):
         stamps64.append(k)
@@ -487,9 +581,18 @@ def rows_check(stamps64, data, typ, provenance=True):
         if not np.array_equal(out['dt'].values, st[1:] - st[:-1]):
             return f"dt column {out['dt'].values.tolist()} is not the successive stamp differences", None
     vals = out.values
-    lbad = layout_identity(imu, typ)
+    lbad = stamp_clause(out, imu.index, "float64 readings") or layout_identity(imu, typ) or \
+        dtype_offset_check(build([k - stamps64[0] for k in stamps64], data), typ, k=(n + len(typ)))
     if lbad:
         return lbad, None
+    if n >= 2 and stamps64[0] >= 64 * 1000:
+        # translation of the (dyadic) time axis: same dt bits, hence bit-identical columns, shifted labels
+        base = (stamps64[0] // 64) * 64
+        o0 = compute_increments_from_imu(build([k - base for k in stamps64], data), typ)
+        if not np.array_equal(o0.values, vals) or \
+                not np.array_equal(np.asarray(o0.index, float) + base / 64.0, np.asarray(out.index, float)):
+            return (f"results for the time axis shifted by {base // 64} s differ from those for the unshifted axis "
+                    f"(max abs difference {float(np.abs(o0.values - vals).max()):.3e})"), None
     canon = []
     for i in range(n - 1):
         one = compute_increments_from_imu(imu.iloc[i:i + 2], typ)
@@ -670,7 +773,11 @@ def replay(obj):
     if rep.get('kind') == 'slope':
         om, f = sig_from_json(rep['om']), sig_from_json(rep['f'])
         layout = rep.get('layout')
-        E, sl = slope_case(om, f, rep['typ'], rep['pattern'], rep['t_start'], layout)
+        try:
+            E, sl = slope_case(om, f, rep['typ'], rep['pattern'], rep['t_start'], layout)
+        except StatementFailure as ex:
+            print("FAILS:", ex)
+            return 1
         print("max errors per interval scale (theta, dv, dv+gap):")
         print(E)
         print("slopes (theta, dv, dv+gap):", sl, "thresholds:", thresholds(rep['sig']))
@@ -685,8 +792,10 @@ def replay(obj):
         return 1 if bad else 0
     if rep.get('kind') == 'layout':
         om, f = sig_from_json(rep['om']), sig_from_json(rep['f'])
-        bad = layout_identity(make_table(om, f, uniform_stamps(rep['t_start'], 0.04), rep['typ']), rep['typ'])
-        print("implementation:", "FAILS: " + bad if bad else "ok, all column layouts give bit-identical results")
+        tbl = make_table(om, f, uniform_stamps(rep['t_start'], 0.04), rep['typ'])
+        bad = layout_identity(tbl, rep['typ']) or dtype_offset_check(tbl, rep['typ'], k=rep.get('k', 0))
+        print("implementation:", "FAILS: " + bad if bad else
+              "ok, all column layouts / extra columns give bit-identical results; float32 readings and time offsets ok")
         return 1 if bad else 0
     if rep.get('kind') == 'f2':
         om, f = sig_from_json(rep['om']), sig_from_json(rep['f'])
